@@ -174,3 +174,17 @@ reg("C01", "rv-determinism", "exploration", "byte-level digest comparison across
 reg("C40", "rv-accessctl", "exploration", "safety monitor over the access-controller call history (role-level model)",
     "Random scripts of all 21 controller methods (plus direct role-assignment attacks) under every kind of badge presentation, with proposals drawn from a small pool (equal / near-miss / stale contents), cancels, locks, and time advanced by real round changes to just before / at / after the configured delay, on latest-protocol (v2 code), Anemone-only (v1 code) and upgraded ledgers; after every transaction the stored rules and the controlled-asset vault are compared with a model that allows a change only for a different-role confirmation of the identical pending proposal or the recovery role's own timed proposal after its delay; create_proof must fail while primary is locked.",
     _LEDGER_NOTE + " Delay elapsed is judged at minute resolution as the controller does.", "DESIGN.md §4 C40")
+
+def _valgrind_step(binary, prop, scale):
+    return dict(
+        name=f"valgrind-memcheck-{prop}", tool="valgrind 3.19 memcheck on the release binary",
+        cmd=["valgrind", "--error-exitcode=9", "-q", "--errors-for-leak-kinds=none", f"/verif/target/release/{binary}", prop, "quick", "--threads", "1", "--seed", "{seed}"],
+        env={"VERIF_SANITIZER_SLICE": "1", "VERIF_SCALE": scale, "VERIF_BUDGET_S": "120"},
+        cwd="/verif", shards={"quick": 2, "thorough": 8}, iterations={"quick": 0, "thorough": 0},
+        ok_marker="SUMMARY property=", timeout=2400,
+        violation_markers=["Invalid read", "Invalid write", "Invalid free", "Mismatched free", "uninitialised value", "Source and destination overlap"],
+    )
+CHECKS["C48"]["post_steps"] = [_valgrind_step("rv-ident", "C48", "0.0005")]
+CHECKS["C48"]["note"] += " Sanitizer step: valgrind memcheck over a slice of the sign/verify/mutate workload (blst, secp256k1 FFI and the transmutes in signature_validator.rs)."
+CHECKS["C47"]["post_steps"] = [_valgrind_step("rv-wasm", "C47", "0.01")]
+CHECKS["C47"]["note"] += " Sanitizer step: valgrind memcheck over a slice of the host-call workload (wasmi glue)."
